@@ -55,6 +55,18 @@ theorem error_roundtrip (e : ProtoErr) (h : DefaultPrefixed e = true) :
   · intro hc
     rw [error_roundtrip_grpc e hc]; simp [sameError, ProtoErr.normalize, ProtoErr.getMessage]
 
+/-- …and for EVERY type URL - any prefix, several slashes, none - the Connect form keeps code,
+message, the bytes of every detail and the type its URL names (the text after the last slash);
+only the prefix is normalised to the default one. -/
+theorem error_roundtrip_any_prefix (e : ProtoErr) :
+    sameErrorTypes (connectToProto (protoToConnect e)) e = true := by
+  simp [sameErrorTypes, connectToProto, protoToConnect, ProtoErr.getMessage, details_restored]
+
+example : sameErrorTypes ⟨5, some "m", [⟨"type.googleapis.com/a.B".toList, [1]⟩]⟩
+    ⟨5, some "m", [⟨"example.com/x/a.B".toList, [1]⟩]⟩ = true ∧
+    sameErrorTypes ⟨5, some "m", [⟨"type.googleapis.com/x/a.B".toList, [1]⟩]⟩
+    ⟨5, some "m", [⟨"example.com/x/a.B".toList, [1]⟩]⟩ = false := by decide
+
 /-- `ConvertErrorToProtoError` looks through wrapping and never loses a Connect error. -/
 theorem error_any (e : ConnectErr) :
     errorToProto (some (.wrapped e)) = some (connectToProto e) ∧
